@@ -80,7 +80,7 @@ def table() -> dict[str, Prop]:
              "points are validated before chr() (CHR); a rule that reports a match has advanced the cursor, one that does not has "
              "left it alone (PROG); no local can be read before assignment (DEF); no undocumented raise / assert in the phase "
              "(RAISE); the CLI decodes file content leniently (CLI)",
-             [BN.rule_bnd, TT.rule_sent, TT.rule_nest, TT.rule_chr, PG.rule_prog, TT.rule_def, TT.rule_raise, TT.rule_cli],
+             [BN.rule_bnd, TT.rule_sent, TT.rule_nest, TT.rule_chr, TT.rule_intarg, PG.rule_prog, TT.rule_def, TT.rule_raise, TT.rule_cli],
              assumptions=["negative indices wrap in Python and cannot raise on a non-empty string: only upper bounds are obligations",
                           "endLine arguments of ParserBlock.tokenize are <= lineMax (all resolved callers pass lineMax, their own "
                           "endLine or a scanned nextLine)",
